@@ -101,6 +101,7 @@ def run_wiring(tier, funcs, index, enums, res):
     for k, c in r.pop("unsupported").items():
         res["unsupported"][k] = res["unsupported"].get(k, 0) + c
     r["bound"] = "do_xargs: every subset of -n -L -s -I -d -0 -x -r -a, symbolic values and positions"
+    res["limiter_orders"] = {k: sorted(v) for k, v in r.pop("orders", {}).items()}
     r["inputs_covered"] = r.pop("checks")
     res["runs"].append(r)
     t = ("do_xargs from MIR with clap as a model (symbolic option presence, values, command-line positions): Options, normalize_options, LimiterCollection::{new,add}, the limiter "
@@ -111,25 +112,28 @@ def run_wiring(tier, funcs, index, enums, res):
     res["bounds"] = (res.get("bounds") + "; " if res.get("bounds") else "") + b
 
 
-def run_batching(tier, funcs, index, enums, res):
+def run_batching(tier, funcs, index, enums, res, orders=None):
     import c04_batching
-    res["target"] = "CommandBuilderOptions::new + process_input with the real limiter chain; symbolic argument lengths, limits, line structure and child outcomes"
+    res["target"] = ("CommandBuilderOptions::new + process_input with the real limiter chain, built in the order in which do_xargs installs the limiters (read off do_xargs' MIR by c06_wiring); "
+                     "symbolic argument lengths, limits, line structure and child outcomes")
     for nargs in BATCH_BOUNDS[tier]:
         for cfg in c04_batching.CONFIGS:
-            r = c04_batching.explore(nargs, cfg, funcs, index, enums)
-            res["functions_executed"].update(r.pop("functions_executed"))
-            for v in r.pop("violations"):
-                res["violations"].append({"key": "%s | %s" % (v["what"], json.dumps(cfg, sort_keys=True)), "summary": "%s; batches %s; config %s; witness %s" % (
-                    v["what"], v.get("batches"), {k: x for k, x in cfg.items() if x}, v.get("witness")), "replayer": "batching", "config": cfg, "nargs": nargs,
-                    "witness": v.get("witness"), "batches": v.get("batches"), "what": v["what"]})
-            for p in r.pop("panics"):
-                res["violations"].append({"key": "panic " + p["panic"][:60], "summary": "panic: %s (batches %s)" % (p["panic"], p["batches"]), "replayer": "batching",
-                                          "config": cfg, "nargs": nargs, "witness": None})
-            for k, c in r.pop("unsupported").items():
-                res["unsupported"][k] = res["unsupported"].get(k, 0) + c
-            r["bound"] = "%d arguments, options %s" % (nargs, "".join("-" + k for k, x in cfg.items() if x) or "(none)")
-            r["inputs_covered"] = r.pop("obligations")
-            res["runs"].append(r)
+            want = ",".join(sorted([k for k in ("n", "L", "s") if cfg[k]] + ["sys"]))
+            for order in sorted((orders or {}).get(want, [None]), key=str):
+              r = c04_batching.explore(nargs, cfg, funcs, index, enums, order=order)
+              res["functions_executed"].update(r.pop("functions_executed"))
+              for v in r.pop("violations"):
+                  res["violations"].append({"key": "%s | %s" % (v["what"], json.dumps(cfg, sort_keys=True)), "summary": "%s; batches %s; config %s; witness %s" % (
+                      v["what"], v.get("batches"), {k: x for k, x in cfg.items() if x}, v.get("witness")), "replayer": "batching", "config": cfg, "nargs": nargs,
+                      "witness": v.get("witness"), "batches": v.get("batches"), "what": v["what"]})
+              for p in r.pop("panics"):
+                  res["violations"].append({"key": "panic " + p["panic"][:60], "summary": "panic: %s (batches %s)" % (p["panic"], p["batches"]), "replayer": "batching",
+                                            "config": cfg, "nargs": nargs, "witness": None})
+              for k, c in r.pop("unsupported").items():
+                  res["unsupported"][k] = res["unsupported"].get(k, 0) + c
+              r["bound"] = "%d arguments, options %s" % (nargs, "".join("-" + k for k, x in cfg.items() if x) or "(none)")
+              r["inputs_covered"] = r.pop("obligations")
+              res["runs"].append(r)
     res["bounds"] = ("%s input arguments; argument lengths 1..%d, command length 1..8, -n 1..4, -L 1..4, -s 0..%d (all symbolic); every line structure; every outcome "
                      "sequence over {exit 0, exit 1..125, exit 255}; option sets %s" % (BATCH_BOUNDS[tier], c04_batching.MAXLEN, 4 * c04_batching.MAXLEN + 20,
                                                                                        ["".join("-" + k for k, x in c.items() if x) or "(none)" for c in c04_batching.CONFIGS]))
@@ -227,7 +231,7 @@ def run_files0(tier, funcs, index, enums, res):
 
 def run_exec(prop, tier, funcs, index, enums, res):
     import c08_exec
-    kinds = ["multi", "multi_dir", "multi_quit", "multi_two"] if prop == "C08" else ["single", "single_dir"]
+    kinds = ["multi", "multi_dir", "multi_quit", "multi_two", "multi_roots", "multi_roots_dir"] if prop == "C08" else ["single", "single_dir"]
     res["target"] = ("process_dir + WalkEntry::from_walkdir + %s (built by the real expression parser from '-exec[dir] cmd ... %s') over a scripted walkdir tree"
                      % (("MultiExecMatcher::{new,matches,finished_dir,finished,run_command,new_command}", "{} +") if prop == "C08"
                         else ("SingleExecMatcher::{new,matches}", ";")))
@@ -399,6 +403,30 @@ def run_printf(tier, funcs, index, enums, res):
                          c16.STARTS, sorted({p[1] for p in plans})))
 
 
+def run_regex(tier, funcs, index, enums, res):
+    import c17_regex as c17
+    for t in c17.TEMPLATES:
+        r = c17.explore(t, funcs, index, enums, tier)
+        res["functions_executed"].update(r.pop("functions_executed"))
+        for v in r.pop("violations"):
+            res["violations"].append({"key": "regex | " + v["class"], "summary": "find r %s, path %r: %s (compiled by onig: %s)" % (" ".join(v["tokens"]), v["subject"], v["what"], v["compiled"]),
+                                      "replayer": "regex_cli", "tokens": v["tokens"], "subject": v["subject"], "what": v["what"], "class": v["class"]})
+        for k, c in r.pop("unsupported").items():
+            res["unsupported"][k] = res["unsupported"].get(k, 0) + c
+        r["bound"] = r["kind"] + " with " + "; ".join("%s in %d words" % (k.split("@")[0], len(v)) for k, v in r.pop("slot_vocabularies").items())
+        r["inputs_covered"] = r.pop("checks")
+        res["runs"].append(r)
+    res["target"] = ("build_top_level_matcher / build_matcher_tree (the -regextype, -regex, -iregex arms and the recursion on parentheses), RegexType::from_str, RegexMatcher::new, "
+                     "<RegexMatcher as Matcher>::matches on a WalkEntry built by WalkEntry::new, evaluated through the real combinators; the onig crate is a model under its contract "
+                     "(onig_model.py: the four syntaxes' operator tables from regsyntax.c, a backtracking matcher in onig's priority order, is_match = onig_match at 0 covers the text), "
+                     "validated against the real binary by c17_regex.py calibrate (480 runs, no difference)")
+    res["bounds"] = ("command lines from %d templates %r; T over %r, P over %r, R over -regex/-iregex (quick: templates other than %r use T over %r, P over %r); path of the entry over %r; "
+                     "reference: each operand is read in the syntax named by the nearest preceding -regextype in command-line order (emacs if none) and is true iff the WHOLE path is in its "
+                     "language (any way of matching, not the first in priority order), -iregex folds case, -regextype is true, an unknown type or an ill-formed pattern rejects the command line. "
+                     "Outside: anchors, intervals, classes, multi-byte text, what oniguruma does beyond the modelled subset" % (
+                         len(c17.TEMPLATES), list(c17.TEMPLATES), c17.TYPE_WORDS, c17.PATTERNS, list(c17.FULL_IN_QUICK), c17.QUICK_TYPES, c17.QUICK_PATTERNS, c17.SUBJECTS))
+
+
 def main():
     prop, tier, out = sys.argv[1], sys.argv[2], sys.argv[3]
     t0 = time.time()
@@ -412,9 +440,14 @@ def main():
     elif prop == "C06":
         run_wiring(tier, funcs, index, enums, res)
     elif prop in ("C04", "C19"):
-        run_batching(tier, funcs, index, enums, res)
+        orders = None
         if prop == "C04":
             run_wiring(tier, funcs, index, enums, res)
+            orders = res.pop("limiter_orders", None)
+        tb = (res.pop("target", ""), res.pop("bounds", ""))
+        run_batching(tier, funcs, index, enums, res, orders)
+        if prop == "C04":
+            res["target"] += "; " + tb[0]; res["bounds"] += "; " + tb[1]
         if prop == "C19":
             run_classify(tier, funcs, index, enums, res)
     elif prop in ("C18", "C02"):
@@ -441,6 +474,18 @@ def main():
         res["bounds"] += "; -sorted: every ordered pair of the names %r is ordered byte-wise" % c02_walk.SORT_NAMES
     elif prop == "C15":
         run_newer_names(tier, funcs, index, enums, res)
+        import c15_clock
+        r = c15_clock.explore_clock(funcs, index, enums)
+        res["functions_executed"].update(r.pop("functions_executed"))
+        for v in r.pop("violations"):
+            res["violations"].append({"key": "clock | " + v["what"].split(":")[0][:70], "summary": v["what"], "replayer": "clock_cli", "what": v["what"]})
+        for k, c in r.pop("unsupported").items():
+            res["unsupported"][k] = res["unsupported"].get(k, 0) + c
+        r["bound"] = "clock: new(), 0..2 ticks, now(), 0..2 ticks, now()"
+        r["inputs_covered"] = r.pop("checks")
+        res["runs"].append(r)
+        res["target"] += "; StandardDependencies::new + <StandardDependencies as Dependencies>::now with SystemTime::now as a native returning strictly increasing symbolic instants"
+        res["bounds"] += "; clock: every now() returns one and the same instant read by new(), for all instants and 0..2 clock ticks before and between the calls"
     elif prop == "C14":
         run_values(tier, funcs, index, enums, res)
     elif prop == "C10":
@@ -457,6 +502,21 @@ def main():
         run_types(tier, funcs, index, enums, res)
     elif prop == "C13":
         run_types(tier, funcs, index, enums, res)
+        # which follow mode the leading -P / -H / -L flags select (the last one wins) - the record selection above is relative to it
+        import c18_startpoints
+        fv = ["-H", "-L", "-P", "-O2", "--", "a", "-print"]
+        for n in (1, 2, 3, 4):
+            r = c18_startpoints.explore(n, funcs, index, enums, vocab=fv)
+            res["functions_executed"].update(r.pop("functions_executed"))
+            for v in r.pop("violations"):
+                res["violations"].append({"key": "follow flags | " + v["what"].split(",")[0][:60], "summary": "%s: %s" % (" ".join(v["tokens"] or []), v["what"]), "replayer": "startpoints",
+                                          "tokens": v["tokens"], "what": v["what"]})
+            for k, c in r.pop("unsupported").items():
+                res["unsupported"][k] = res["unsupported"].get(k, 0) + c
+            r["bound"] = "follow flags: %d tokens over %d words" % (n, len(fv))
+            res["runs"].append(r)
+        res["target"] += "; parse_args + do_find on command lines of leading follow flags (process_dir a recorder): the follow mode in force"
+        res["bounds"] += "; follow flags: every command line of 1..4 tokens over %r - the mode is that of the last of -P / -H / -L before the first operand" % fv
         import c13_perm
         r = c13_perm.explore(funcs, index, enums)
         res["functions_executed"].update(r.pop("functions_executed"))
@@ -473,6 +533,8 @@ def main():
         run_print0(tier, funcs, index, enums, res)
     elif prop == "C20":
         run_replace(tier, funcs, index, enums, res, text)
+    elif prop == "C17":
+        run_regex(tier, funcs, index, enums, res)
     else:
         raise SystemExit("no MIR-level check for " + prop)
     res["functions_executed"] = sorted(res["functions_executed"])
